@@ -387,27 +387,51 @@ namespace R
          if( at.kind == AK_LIMIT_DEPTH && depth + 1 > at.n ) return { RAISE, 0, WHO_LIMIT_DEPTH, pos, pos, -1 };
          int end2 = end;
          Ctx in = am;  // context for the rule itself and everything below it
-         int new_state = -1;
-         bool state_default_ctor = false;
-         switch( at.kind ) {
-            case AK_LIMIT_BYTES: end2 = std::min( end, pos + at.n ); break;
-            case AK_CHANGE_STATE:
-            case AK_CHANGE_ACTION_AND_STATE: new_state = st_next++; break;
-            case AK_CHANGE_STATES:
-            case AK_CHANGE_ACTION_AND_STATES:
-               new_state = st_next++;
-               state_default_ctor = true;
-               break;
-            case AK_ENABLE_ACTION: in.am = 1; break;
-            case AK_DISABLE_ACTION: in.am = 0; break;
-            case AK_CHANGE_CONTROL: in.ctl = 2; break;
-            default: break;
+         // scoping attachments: the one of the family in effect, and - when it switches to the alternative family whose
+         // entry for this rule is itself a switch - that one too (Control< Rule >::match is re-entered with the new family)
+         struct Scope
+         {
+            int state = -1;
+            int am_seen = 1;     // apply mode with which this attachment's match() was entered
+            int outer_state = -1;
+         };
+         Scope scopes[ 2 ];
+         int nscopes = 0;
+         Attach ats[ 2 ] = { at, Attach{ AK_NONE, 0 } };
+         int nats = 1;
+         if( at.kind == AK_CHANGE_ACTION || at.kind == AK_CHANGE_ACTION_AND_STATE || at.kind == AK_CHANGE_ACTION_AND_STATES || at.kind == AK_CHANGE_ACTION_AND_STATE_D ) {
+            const Attach a2 = attach_of( FAM_ALT, I );
+            if( a2.kind != AK_APPLY && a2.kind != AK_NONE ) ats[ nats++ ] = a2;
          }
-         if( new_state >= 0 ) {
-            st_log.push_back( { 0, new_state, state_default_ctor ? -1 : pos, state_default_ctor ? -2 : am.state } );
-            in.state = new_state;
+         for( int k = 0; k < nats; ++k ) {
+            const int kind = ats[ k ].kind;
+            bool mk = false, dflt = false;
+            switch( kind ) {
+               case AK_LIMIT_BYTES: end2 = std::min( end, pos + ats[ k ].n ); break;
+               case AK_CHANGE_STATE:
+               case AK_CHANGE_ACTION_AND_STATE: mk = true; break;
+               case AK_CHANGE_STATES:
+               case AK_CHANGE_ACTION_AND_STATES:
+               case AK_CHANGE_STATE_D:
+               case AK_CHANGE_ACTION_AND_STATE_D:
+                  mk = true;
+                  dflt = true;
+                  break;
+               case AK_ENABLE_ACTION: in.am = 1; break;
+               case AK_DISABLE_ACTION: in.am = 0; break;
+               case AK_CHANGE_CONTROL: in.ctl = 2; break;
+               default: break;
+            }
+            if( mk ) {
+               Scope& sc = scopes[ nscopes++ ];
+               sc.state = st_next++;
+               sc.am_seen = in.am;
+               sc.outer_state = in.state;
+               st_log.push_back( { 0, sc.state, dflt ? -1 : pos, dflt ? -2 : in.state } );
+               in.state = sc.state;
+            }
+            if( kind == AK_CHANGE_ACTION || kind == AK_CHANGE_ACTION_AND_STATE || kind == AK_CHANGE_ACTION_AND_STATES || kind == AK_CHANGE_ACTION_AND_STATE_D ) in.fam = FAM_ALT;
          }
-         if( at.kind == AK_CHANGE_ACTION || at.kind == AK_CHANGE_ACTION_AND_STATE || at.kind == AK_CHANGE_ACTION_AND_STATES ) in.fam = FAM_ALT;
          if( at.kind == AK_LIMIT_DEPTH ) ++depth;
          stack.push_back( { I, pos, end } );
          const size_t mark = trail.size();
@@ -449,9 +473,9 @@ namespace R
             // must_if control: the failure hook of this rule raises (position: wherever the failed attempt left the cursor)
             r = { RAISE, 0, I, pos, std::max( pos, hw_rule ), -1 };
          }
-         if( new_state >= 0 ) {
-            if( r.k == OK && am.am ) st_log.push_back( { 1, new_state, r.pos, am.state } );
-            st_log.push_back( { 2, new_state, -1, -1 } );
+         for( int k = nscopes - 1; k >= 0; --k ) {
+            if( r.k == OK && scopes[ k ].am_seen ) st_log.push_back( { 1, scopes[ k ].state, r.pos, scopes[ k ].outer_state } );
+            st_log.push_back( { 2, scopes[ k ].state, -1, -1 } );
          }
          if( r.k == FAIL ) {
             if( trail.size() != mark + 1 ) ++n_backtrack_after_consume;
